@@ -5,6 +5,7 @@ CONSTANTS
   DEnd = 4
   Secs = {0, 43200}
   Bounds = {0}
+  ContinueAfterInfinite = FALSE
   Unsound = TRUE
 INVARIANTS StreamOk RangeOk FirstOk BoundOk Progress
 CHECK_DEADLOCK FALSE
